@@ -281,6 +281,9 @@ def probes(ctx):
         (NULLCLS, 'end{xs = []; xs[1]["k"] = 5; ys = [7]; ys[2]["j"] = 6; emit1 {"r": ys}}', [],
          [R(("r", ("arr", [("int", 7), ("map", [("j", ("int", 6))])])))],
          "reference-main-arrays.md auto-extend: a write one past the end grows THAT array by one; other arrays' new elements are unaffected"),
+        # fix 600e7ca15 (clone c14-repo): $[[n]] / $[[[n]]] read in a function called from an end block dereferenced the nil record
+        ("positional-read-without-record-panics", 'func f() { return typeof($[[1]]) . typeof($[[[1]]]) } end { print f() }', [], [("s", "absentabsent")],
+         "reference-dsl-variables.md: field references outside the record context are absent"),
     ]
     cases = [{"text": prog + "\n", "inputs": ins, "quiet": False} for _, prog, ins, _, _ in table]
     obs = [run_batch(ctx, [c])[0] for c in cases]     # one process each: a corrupted singleton must not leak into the next witness
@@ -686,6 +689,14 @@ def oracle_table(rng):
               [R(("m", ("map", [("1", ("map", [("2", I(k))]))])), ("x", A(("map", [("k", I(5))]), ("map", [("j", I(6))]))))]))
     t.append(("array-type-gate", 'end { arr a = [1]; a[2] = 2; a = {} }', [], "error"))
     t.append(("array-type-gate-accepts", 'end { arr a = [1]; a[2] = 2; var v = [3]; emit1 {"a": a, "v": v, "t": typeof(a)} }', [], [R(("a", A(I(1), I(2))), ("v", A(I(3))), ("t", S("array")))]))
+    # positional names / values (reference-dsl-variables.md "Positional field names") and emitf (reference-dsl-output-statements.md)
+    t.append(("positional-name-and-value-reads", '$x = $[[1]] . ":" . $[[[1]]] . ":" . $[[-1]] . ":" . typeof($[[9]]) . typeof($[[[0]]])', [rec],
+              [R(("a", I(k)), ("b", S(w)), ("c", I(7)), ("x", S("a:%d:c:absentabsent" % k)))]))
+    t.append(("positional-name-assignment-renames", '$[[1]] = "A"; $[[5]] = "nope"', [rec], [R(("A", I(k)), ("b", S(w)), ("c", I(7)))]))
+    t.append(("positional-value-assignment", '$[[[2]]] = "new"; $[[[6]]] = "nope"; $[[[-1]]] = 0', [rec], [R(("a", I(k)), ("b", S("new")), ("c", I(0)))]))
+    t.append(("srec-assignment-non-map-is-error", '$* = 3', [rec], "error"))
+    t.append(("emitf-one-record-with-those-names", '@count += 1; @sum += $a; end { emitf @count, @sum }', [[("a", "5")], [("a", str(k))]],
+              [R(("a", I(5))), R(("a", I(k))), R(("count", I(2)), ("sum", I(5 + k)))]))
     t.append(("emit-by-names-is-grouping", '@sum[$a][$b] = $c; end { emit @sum, "a", "b" }', [[("a", "x"), ("b", "p"), ("c", "1")], [("a", "y"), ("b", "p"), ("c", "2")], [("a", "x"), ("b", "q"), ("c", "3")]],
               None))
     return t
